@@ -25,18 +25,22 @@ OV_KEYS = ['mat', 'rho', 'u', 'fill', 'trcl', '*trcl', 'imp']
 OV_VALUES = {
     'mat': ['2', '3'], 'rho': ['-3.5', '-0.8'], 'u': ['7', '8'], 'fill': ['6', '5'],
     'trcl': ['(5 0 0)', '(0 5 1 0 1 0 -1 0 0 0 0 1)'], '*trcl': ['(0 -5 0)', '(4 4 0 90 0 90 180 90 90 90 90 0)'],
-    'imp': ['0', '2'],
+    'imp': ['n=0', 'n=2', 'n,p=0', 'n=0 p=0', 'p,n=0', 'p=0'],
 }
 
 
 class Cell:
-    def __init__(self, num, mat='0', rho=None, geom='-1', u=None, fill=None, trcl=None, startrcl=None, imp='1'):
+    def __init__(self, num, mat='0', rho=None, geom='-1', u=None, fill=None, trcl=None, startrcl=None, imp=None):
         self.num, self.mat, self.rho, self.geom = num, mat, rho, geom
-        self.u, self.fill, self.trcl, self.startrcl, self.imp = u, fill, trcl, startrcl, imp
+        self.u, self.fill, self.trcl, self.startrcl = u, fill, trcl, startrcl
+        self.imp = dict(imp or {'n': '1'})      # importance per particle type
+        self.imp_spelling = None                # spelling on the base card (e.g. 'imp:n,p=1')
 
     def copy(self, num):
         c = Cell(num)
         c.__dict__.update(self.__dict__)
+        c.imp = dict(self.imp)
+        c.imp_spelling = None
         c.num = num
         return c
 
@@ -50,7 +54,10 @@ class Cell:
             o.append('trcl=%s' % self.trcl)
         if self.startrcl:
             o.append('*trcl=%s' % self.startrcl)
-        o.append('imp:n=%s' % self.imp)
+        if self.imp_spelling:
+            o.append(self.imp_spelling)
+        else:
+            o.append(' '.join('imp:%s=%s' % kv for kv in sorted(self.imp.items())))
         return ' '.join(o)
 
     def card(self):
@@ -73,7 +80,11 @@ def apply_override(cell, ov):
         elif k == '*trcl':
             cell.startrcl = v; cell.trcl = None
         elif k == 'imp':
-            cell.imp = v
+            # IMP:N and IMP:P are separate parameters: only the listed particle types are replaced
+            for part in v.split():
+                particles, val = part.split('=')
+                for pt in particles.split(','):
+                    cell.imp[pt] = val
     return cell
 
 
@@ -81,7 +92,7 @@ def but_text(ov, ch, label):
     parts = []
     for k, v in ov:
         if k == 'imp':
-            parts.append('imp:n=%s' % v)
+            parts.append(' '.join('imp:' + part for part in v.split()))
         else:
             parts.append('%s=%s' % (k, v))
     return ' '.join(parts)
@@ -113,6 +124,13 @@ def build(chain_len):
         if ch.choose('base-mat', [False, True]):
             base.mat, base.rho = '1', '-2.7'
         base.geom = ch.choose('geom', GEOMS)
+        bimp = ch.choose('base-imp', ['imp:n=1', 'imp:n,p=1', 'imp:n=1 imp:p=2', 'imp:p=1 imp:n=2'])
+        base.imp_spelling = bimp
+        base.imp = {}
+        for part in bimp.split():
+            particles, val = part[4:].split('=')
+            for pt in particles.split(','):
+                base.imp[pt] = val
         bo = ch.choose('base-options', ['plain', 'fill', 'trcl', 'fill+trcl', 'u'])
         if 'fill' in bo:
             base.fill = '5'
